@@ -21,7 +21,7 @@ func init() {
 		},
 		Explanation: "in-process: (1) for every state and every complete item, the lookahead set obtained through the hook equals the reference LALR(1) set (both inclusions), states matched by item set; (2) the number of 'warning: has the conflic' lines on stdout is > 0 iff the reference finds a conflict cell that precedence does not resolve; nullable-family grammars are built twice and must give the same sets",
 	})
-	fams := []string{"uniform", "productive", "nullable", "nullable", "separators", "lalr", "uniform-small", "prec", "prec-sep"}
+	fams := []string{"uniform", "productive", "nullable", "nullable", "separators", "samehandle", "lalr", "uniform-small", "prec", "prec-sep"}
 	replay := func(c *Ctx, raw json.RawMessage) string {
 		var gc GCase
 		if m := decodeCase(raw, &gc); m != "" {
